@@ -196,6 +196,59 @@ theorem installPlanExcludes_is_perm (f d : List Str) :
     (installPlanExcludes f d).1 ~ d ∧ (installPlanExcludes f d).2 ~ f :=
   ⟨sortedStrs_perm_self d, sortedStrs_perm_self f⟩
 
+/-! ### `DepFile.get_all_dependencies` → `build_def_files` → REGENERATE_BUILD inputs -/
+
+/-- the result depends only on the *relation* "target has dependency": not on the order of the rules,
+not on the iteration order of any `Target.deps` set, not on repetitions -/
+theorem getAllDependencies_perm_invariant {df₁ df₂ : List (Str × List Str)} (name : Str)
+    (hl : df₁.length = df₂.length)
+    (h : ∀ t x, x ∈ depsAt df₁ t ↔ x ∈ depsAt df₂ t) :
+    getAllDependencies df₁ name = getAllDependencies df₂ name := by
+  unfold getAllDependencies
+  apply sortedSet_ext
+  intro x
+  simp only [mem_flatMap]
+  have r := reachN_ext h df₁.length (S₁ := [name]) (S₂ := [name]) (fun _ => Iff.rfl)
+  rw [← hl]
+  constructor
+  · rintro ⟨t, ht, hx⟩; exact ⟨t, (r t).mp ht, (h t x).mp hx⟩
+  · rintro ⟨t, ht, hx⟩; exact ⟨t, (r t).mpr ht, (h t x).mpr hx⟩
+
+/-- in particular: the dict of rules iterated in any order -/
+theorem getAllDependencies_rule_order_invariant {df₁ df₂ : List (Str × List Str)} (name : Str)
+    (nd : (df₁.map Prod.fst).Nodup) (p : df₁ ~ df₂) :
+    getAllDependencies df₁ name = getAllDependencies df₂ name :=
+  getAllDependencies_perm_invariant name p.length_eq (fun t x => by rw [depsAt_perm nd p t])
+
+/-- … and every dependency set iterated in any order -/
+theorem getAllDependencies_dep_order_invariant (df : List (Str × List Str)) (f : List Str → List Str)
+    (hf : ∀ l, f l ~ l) (name : Str) :
+    getAllDependencies (df.map fun e => (e.1, f e.2)) name = getAllDependencies df name := by
+  apply getAllDependencies_perm_invariant name (by simp)
+  intro t x
+  have : depsAt (df.map fun e => (e.1, f e.2)) t = (df.lookup t).elim [] f := by
+    unfold depsAt
+    induction df with
+    | nil => rfl
+    | cons e es ih =>
+      obtain ⟨k, v⟩ := e
+      by_cases hk : t = k
+      · subst hk; simp
+      · have : (t == k) = false := by simp [hk]
+        simp only [map_cons, lookup_cons, this]
+        exact ih
+  rw [this]
+  unfold depsAt
+  cases df.lookup t with
+  | none => simp
+  | some v => simpa using (hf v).mem_iff
+
+/-- the result is exactly the reachable dependency set: nothing lost, nothing invented -/
+theorem getAllDependencies_mem (df : List (Str × List Str)) (name x : Str) :
+    x ∈ getAllDependencies df name ↔ ∃ t, t ∈ reachN df df.length [name] ∧ x ∈ depsAt df t := by
+  unfold getAllDependencies
+  rw [mem_sortedSet, mem_flatMap]
+
 /-! ### unchanged outputs are not disturbed -/
 
 /-- `replace_if_different(dst, tmp)` with equal contents: `dst` keeps content **and mtime**, the
